@@ -1,7 +1,10 @@
 // Line-protocol driver around the real library: one operation per input line, one canonical
 // output line per operation. usage: harness_main [opsfile]   (stdin when absent)
+#include <atomic>
 #include <fstream>
 #include <iostream>
+#include <random>
+#include <thread>
 
 #include "common.h"
 
@@ -21,6 +24,45 @@ int main(int argc, char **argv) {
   }
   std::ios::sync_with_stdio(false);
   std::string line;
+  // C19: VH_THREADS=N runs the operations concurrently on N threads (thread t executes the
+  // lines i with i % N == t, start-aligned, with random yields); output is printed in input order.
+  const char *nt = getenv("VH_THREADS");
+  if (nt && atoi(nt) > 1) {
+    const int N = atoi(nt);
+    std::vector<vh::Args> ops;
+    while (std::getline(*in, line)) {
+      vh::Args a;
+      std::istringstream ss(line);
+      std::string t;
+      while (ss >> t) a.push_back(t);
+      ops.push_back(a);
+    }
+    std::vector<std::string> outs(ops.size());
+    std::atomic<int> ready(0);
+    std::atomic<bool> go(false);
+    std::vector<std::thread> th;
+    for (int t = 0; t < N; ++t) {
+      th.emplace_back([&, t]() {
+        std::mt19937 rng(12345u + 977u * t);
+        ready.fetch_add(1);
+        while (!go.load()) {
+        }
+        for (size_t i = t; i < ops.size(); i += N) {
+          if (rng() % 3 == 0) std::this_thread::yield();
+          const vh::Args &a = ops[i];
+          if (a.empty()) continue;
+          auto it = vh::registry().find(a[0]);
+          outs[i] = it == vh::registry().end() ? "bad-op" : it->second(a);
+        }
+      });
+    }
+    while (ready.load() < N) {
+    }
+    go.store(true);
+    for (auto &t : th) t.join();
+    for (auto &o : outs) std::cout << o << "\n";
+    return 0;
+  }
   long n = 0;
   while (std::getline(*in, line)) {
     ++n;
